@@ -35,6 +35,9 @@ pub fn handle(line: &str) -> String {
     }
     let lib = runner.file_library();
     let out: Vec<Value> = reports.iter().map(|r| crate::analyze::report_json(r, lib)).collect();
+    if req["dump"].as_bool().unwrap_or(false) {
+        return json!({"reports": out, "ssa": crate::dump::cfg(&cfg)}).to_string();
+    }
     json!({"reports": out}).to_string()
 }
 
